@@ -307,6 +307,9 @@ func c04NewExplorer(sc c04Scenario, share, nshare int) *sched.Explorer {
 		if f := kit.Getenv("VERIF_FREE", ""); f != "" {
 			fmt.Sscanf(f, "%d", &e.FreeBound)
 		}
+		if e.FreeBound < 0 {
+			e.FreeLimited = false // every switch at blocking/finishing points
+		}
 		if len(sm.Funcs) > 0 {
 			e.PreemptSite = sm.accepts
 		}
@@ -318,6 +321,7 @@ func c04Gen(name string, id int) []vPoint { return vWriteMenu[vWriteIndex(name)]
 
 var c04Scenarios = []c04Scenario{
 	{Name: "S1_write_flush_read", Preload: []string{"We"},
+		Seam: &c04Seam{FreeQuick: 1, FreeDeep: -1, Timers: 1},
 		Threads: func(v *vShard, l *c04Log) map[string]func() {
 			return map[string]func(){
 				"1writer": func() { l.write(v, 10, c04Gen("Wa", 10)); l.write(v, 11, c04Gen("Wc", 11)) },
@@ -326,6 +330,7 @@ var c04Scenarios = []c04Scenario{
 			}
 		}},
 	{Name: "S2_read_compact_flush", Preload: []string{"Wa", "F", "We", "F", "Wd"},
+		Seam: &c04Seam{FreeQuick: 1, FreeDeep: -1, Timers: 1},
 		Threads: func(v *vShard, l *c04Log) map[string]func() {
 			return map[string]func(){
 				"1compact": func() { _ = v.LevelCompact() },
@@ -334,6 +339,7 @@ var c04Scenarios = []c04Scenario{
 			}
 		}},
 	{Name: "S3_read_merge_write", Preload: []string{"We", "F", "Wd", "F"},
+		Seam: &c04Seam{FreeQuick: 1, FreeDeep: -1, Timers: 1},
 		Threads: func(v *vShard, l *c04Log) map[string]func() {
 			return map[string]func(){
 				"1merge":  func() { _ = v.MergeOOO(true) },
@@ -364,6 +370,7 @@ var c04Scenarios = []c04Scenario{
 			}
 		}},
 	{Name: "S4c_flush_close", Preload: []string{"We", "F", "Wa"}, Closing: true,
+		Seam: &c04Seam{FreeQuick: 1, FreeDeep: -1, Timers: 1},
 		Threads: func(v *vShard, l *c04Log) map[string]func() {
 			return map[string]func(){
 				"1flush": func() { v.Flush() },
@@ -371,6 +378,7 @@ var c04Scenarios = []c04Scenario{
 			}
 		}},
 	{Name: "S4d_drop_close", Preload: []string{"We", "F", "Wa"}, Closing: true,
+		Seam: &c04Seam{FreeQuick: 1, FreeDeep: -1, Timers: 1},
 		Threads: func(v *vShard, l *c04Log) map[string]func() {
 			return map[string]func(){
 				"1drop":  func() { _ = v.sh.DropMeasurement(context.Background(), "m") },
